@@ -58,8 +58,11 @@ def run(ctx, chk):
                     ok = k[0] == "err" and isinstance(k[1], tuple) and k[1][0] == "agg" and k[1][3] == "UnrecognisedBase" and k[1][4] == (I(b, "u8"),)
                     chk.ob("T-conv/back", "byte 0x%02x" % b, ok, "try_from(text 0x%02x %r) = %s; expected Err(UnrecognisedBase(0x%02x))" % (b, ch, k if k[0] != "err" else ("err", show(k[1])), b), tb["span"])
         # ---- sequence conversions ----
-        for what, targ in (("From<&SeqSlice<A>> for Seq<B>", r"^&seq::slice::SeqSlice<A>$"), ("From<&SeqArray<A,N,W>> for Seq<B>", r"^&seq::array::SeqArray<A, N, W>$"),
-                           ("From<SeqArray<A,N,W>> for Seq<B>", r"^seq::array::SeqArray<A, N, W>$")):
+        CONVS = (("From<&SeqSlice<A>> for Seq<B>", r"^&seq::slice::SeqSlice<A>$", "&seq::slice::SeqSlice<A>"),
+                 ("From<&SeqArray<A,N,W>> for Seq<B>", r"^&seq::array::SeqArray<A, N, W>$", "&seq::array::SeqArray<A, N, W>"),
+                 ("From<SeqArray<A,N,W>> for Seq<B>", r"^seq::array::SeqArray<A, N, W>$", "seq::array::SeqArray<A, N, W>"))
+        direct, pend = set(), []
+        for what, targ, src in CONVS:
             b = an.one(chk, "S-conv", bio, what, name="from", trait="std::convert::From", self_re=r"^seq::Seq<B>$", targ_re=targ)
             if not b:
                 continue
@@ -67,9 +70,18 @@ def run(ctx, chk):
             r = [p for p in paths if p.end == "return"]
             x = pipes.map_collect_of(r[0].ret, "seq::Seq<B>", "std::convert::Into::into") if len(r) == 1 and not r[0].guards else None
             want = P(1) if "SeqSlice" in what else ("seqview", P(1))
-            chk.ob("S-conv", what, x == want, "must be content.iter().map(Into::into).collect(); got " + (show(r[0].ret)[:200] if r else "?"), b["span"],
-                   sample="Collect<Seq<B>>(Map(Iter(content), Into::into))")
+            if x == want:
+                direct.add(src)
+            pend.append((what, b, r, x == want))
             nconv += 1
+        for what, b, r, ok in pend:
+            if not ok and len(r) == 1 and not r[0].guards:
+                # one conversion may hand the same content to a sibling that is itself the pipeline (by value -> by reference)
+                t = r[0].ret
+                m = re.match(r"^CONV<(.+) -> seq::Seq<B>>$", t[1]) if isinstance(t, tuple) and t[0] == "call" else None
+                ok = bool(m) and m.group(1) in direct and len(t[2]) == 1 and t[2][0] in (P(1), ("seqview", P(1)))
+            chk.ob("S-conv", what, ok, "must be content.iter().map(Into::into).collect(); got " + (show(r[0].ret)[:200] if r else "?"), b["span"],
+                   sample="Collect<Seq<B>>(Map(Iter(content), Into::into))")
         b = an.one(chk, "S-conv", bio, "From<&Vec<A>> for Seq<A>", name="from", trait="std::convert::From", self_re=r"^seq::Seq<A>$", targ_re=r"^&std::vec::Vec<A>$")
         if b:
             paths, _ = an.analyse(cfg, b)
